@@ -47,6 +47,9 @@ chk("C04","Bounded exhaustive exploration of the sequence-preserving codec: ever
 chk("C05","Bounded exhaustive exploration of escaping: every word of <=3/4 tokens over an alphabet of the five XML special characters, blanks, already-escaped sequences, ]]> and <![CDATA[, placed as element text, attribute value, text beside an attribute and text before a child, for the four XML encoders, under encoder-side escaping, decoder-side escaping (reached by all five documented call histories of the two switches), and escaping off with the validity check on/off; oracle: well-formed output denoting exactly the original values; error-or-well-formed when unescaped.",
     TB+"Bounds: words <=3 (quick) / 4 (thorough) tokens over 15 tokens.",
     "explicit enumeration of (string, position, encoder, option history) on the implementation; differential decode oracle")
+chk("C06","Bounded exhaustive exploration of the JSON codec: encode side - every Map template up to a node bound plus three structures for every word of <=3 tokens over an alphabet with <, >, &, backslash, quote, the literal six-character \\u003c/\\u003e/\\u0026 texts, control characters, U+2028 - through Json, JsonIndent (3 indent pairs), Copy, j2x.MapToJson in default and safe encoding (valid JSON, lossless, literal/escaped policy, byte-identical to encoding/json in safe mode, results retained and re-checked after later calls); decode side - every byte string of <=5/6 tokens over a 13-token JSON alphabet with JsonUseNumber off/on against encoding/json's Decoder.",
+    TB+"Reference: encoding/json. Bounds as stated; ambiguity set: top-level null; array followed by trailing bytes.",
+    "explicit enumeration of inputs on the implementation; differential oracle against encoding/json; retained-result oracle over call histories of length 2-5")
 ALL=["C%02d"%i for i in range(1,21)]
 na=[{"property_id":p,"reason":"check not built yet in this round (planned: see DESIGN.md section 6); will be claimed once its harness is committed"} for p in ALL if p not in C]
 m={"version":1,
